@@ -124,9 +124,8 @@ func PackString(buffer []byte, maxLen uint, input string) (uint, error) {
 		return 0, fmt.Errorf("unable to encode string: %s", err)
 	}
 
-	if len(encoded) >= int(maxLen) {
+	if uint(len(encoded)) > maxLen {
 		encoded = encoded[:maxLen]
-		encoded[maxLen] = 0x00
 	}
 
 	copy(buffer, encoded)
